@@ -44,5 +44,20 @@ def gen(ctx, depth, num, name):
 
 
 def focus(ctx, limit):
-    """exhaustive product (room rights x author x caller x operation shape), one scenario per initial state of Gen_Focus"""
-    return ctx.generate(D, "Gen_Focus", "SPECIFICATION Spec\nINVARIANT Emit\nCHECK_DEADLOCK FALSE\n", "focus", workers=1, timeout=300, limit=limit)
+    """exhaustive product (room rights x author x caller x operation shape x definition change before the operation), one scenario per
+    initial state of Gen_Focus; with a limit, a sample that keeps every (operation, change) pair represented"""
+    hs = ctx.generate(D, "Gen_Focus", "SPECIFICATION Spec\nINVARIANT Emit\nCHECK_DEADLOCK FALSE\n", "focus", workers=1, timeout=600)
+    if limit is None or len(hs) <= limit:
+        return hs
+    import random
+    rnd = random.Random(ctx.seed)
+    strata = {}
+    for h in hs:
+        upd = [o for o in h if o["op"] == "roomupd"]
+        key = (h[-1]["op"], h[-1].get("row"), (upd[0]["room"], upd[0]["what"], upd[0]["self"], upd[0]["enabled"]) if upd else None)
+        strata.setdefault(key, []).append(h)
+    per = max(1, limit // len(strata))
+    out = []
+    for key in sorted(strata, key=str):
+        out += rnd.sample(strata[key], min(per, len(strata[key])))
+    return out
